@@ -317,8 +317,12 @@ impl MatrixPattern {
                     Self::Product(vec![Self::from_typed(*item, statics), tail])
                 })
             }
-            | ValuePattern::SCons(ConsN(_, tail)) => {
-                Self::Package(Box::new(Self::from_typed(*tail, statics)))
+            // One layer per witness, so that `(A, B, p)` and `(A, (B, p))` are the same row
+            // shape, as right-nested products are.
+            | ValuePattern::SCons(ConsN(witnesses, tail)) => {
+                witnesses.iter().fold(Self::from_typed(*tail, statics), |tail, _| {
+                    Self::Package(Box::new(tail))
+                })
             }
         }
     }
